@@ -41,6 +41,11 @@ def scenario(big: bool = False) -> Any:
             if m["dur"] == "never":
                 m["dur"] = 0.0
                 m["out"] = "never"
+        if d.pop("park"):
+            for m in d["msgs"]:
+                if m["kind"] == "async" and m["dur"] and m["out"] != "never":
+                    m["parked"] = True        # waits on a future only the task itself references; see harness
+                    break
         if not d.pop("has_stop") and d["N"] is not None:
             d["stop"] = None
         stag = d.pop("staggered")
@@ -67,6 +72,7 @@ def scenario(big: bool = False) -> Any:
         "W": st.sampled_from([None, None, 0, 0.5, 2.0, 5.0]),
         "msgs": st.lists(msg, min_size=0, max_size=12 if big else 7),
         "stop": cm.times(60), "has_stop": st.booleans(),
+        "park": st.sampled_from([False, False, False, True]),
         "staggered": st.fixed_dictionaries({"on": st.sampled_from([False, False, False, True]), "k": st.integers(1, 3),
                                             "never": st.booleans(), "stop": st.sampled_from([0.05, 0.3, 0.35])}),
     }).map(fin)
